@@ -784,7 +784,7 @@ fn add_call_cases(out: &mut Vec<String>, rng: &mut Rng, label: &str, mk: &dyn Fn
     let mut n = 0usize;
     for (ri, recv) in recvs.iter().enumerate() {
         let mut arglists: Vec<String> = vec![String::new()];
-        let full = thorough || ri < 6;
+        let full = thorough || ri < 9;
         if full {
             for a in ARG_ZOO {
                 arglists.push(a.to_string());
@@ -811,17 +811,21 @@ fn add_call_cases(out: &mut Vec<String>, rng: &mut Rng, label: &str, mk: &dyn Fn
         for al in arglists {
             let src = mk(recv, &al);
             out.push(format!("t {} {} {}", label, n % 2, hex(src.as_bytes())));
+            if al.is_empty() {
+                // the zero-length argument list under the other context (empty containers) too
+                out.push(format!("t {} {} {}", label, (n + 1) % 2, hex(src.as_bytes())));
+            }
             n += 1;
         }
     }
 }
 
 fn gen_builtin_cases(out: &mut Vec<String>, rng: &mut Rng, thorough: bool) {
-    let per = if thorough { 40 } else { 4 };
-    let recv_n = if thorough { RECV_ZOO.len() } else { 14 };
+    let per = if thorough { 40 } else { 6 };
+    let recv_n = if thorough { RECV_ZOO.len() } else { 18 };
     let pick_recvs = |rng: &mut Rng| -> Vec<&'static str> {
         // first the fixed core, then a seeded sample of the rest
-        let mut v: Vec<&'static str> = vec!["xs", "s", "n", "big", "m", "users"];
+        let mut v: Vec<&'static str> = vec!["xs", "s", "n", "big", "m", "users", "exs", "es", "em"];
         while v.len() < recv_n {
             let r = *rng.pick(RECV_ZOO);
             if !v.contains(&r) {
@@ -890,7 +894,7 @@ fn gen_builtin_cases(out: &mut Vec<String>, rng: &mut Rng, thorough: bool) {
     }, &["x"], per * 2, thorough);
     // operators on the zoo (binary + unary + subscripts), incl. the lazily concatenated/repeated objects
     let ops = ["+", "-", "*", "/", "//", "%", "**", "~", "==", "<", "in", "and", "or", "not in", "!=", ">="];
-    let n_ops = if thorough { 6000 } else { 700 };
+    let n_ops = if thorough { 12000 } else { 2000 };
     for i in 0..n_ops {
         let a = rng.pick(RECV_ZOO);
         let b = if rng.chance(1, 2) { *rng.pick(RECV_ZOO) } else { *rng.pick(ARG_ZOO) };
@@ -1181,6 +1185,21 @@ fn mutate(rng: &mut Rng, seeds: &[String], dict: &[String]) -> String {
 fn gen_cases(thorough: bool) -> Vec<String> {
     let mut rng = Rng::new(seed_from_env());
     let mut cases = vec![];
+    // (0) corpus: minimised past failures, replayed first
+    if let Ok(rd) = std::fs::read_dir(concat!(env!("CARGO_MANIFEST_DIR"), "/../corpus/C01")) {
+        let mut ps: Vec<_> = rd.filter_map(|e| e.ok()).map(|e| e.path()).filter(|p| p.extension().map_or(false, |x| x == "cases")).collect();
+        ps.sort();
+        for p in ps {
+            if let Ok(s) = std::fs::read_to_string(&p) {
+                for l in s.lines() {
+                    let l = l.trim();
+                    if !l.is_empty() && !l.starts_with('#') {
+                        cases.push(l.to_string());
+                    }
+                }
+            }
+        }
+    }
     // (4) depth probes first: they are the slow ones, spread over the shards
     let depths: &[usize] = if thorough { &[100, 1000, 10_000, 100_000] } else { &[100, 1000, 10_000] };
     for kind in DEPTH_KINDS {
@@ -1203,7 +1222,7 @@ fn gen_cases(thorough: bool) -> Vec<String> {
             cases.push(format!("e mut:seedexpr 0 {}", hex(s.as_bytes())));
         }
     }
-    let n_mut = if thorough { 60_000 } else { 6_000 };
+    let n_mut = if thorough { 100_000 } else { 15_000 };
     for i in 0..n_mut {
         let m = mutate(&mut rng, &seeds, &dict);
         if i % 10 == 9 {
@@ -1224,7 +1243,7 @@ fn main() {
         Some("gen") => {
             let thorough = args.get(2).map(|s| s == "thorough").unwrap_or(false);
             let cases = gen_cases(thorough);
-            run_all(cases, &["main", "t2m"], Duration::from_secs(if thorough { 120 } else { 60 }));
+            run_all(cases, &["main", "t2m"], Duration::from_secs(if thorough { 120 } else { 20 }));
         }
         Some("list") => {
             let thorough = args.get(2).map(|s| s == "thorough").unwrap_or(false);
